@@ -379,7 +379,8 @@ Inductive h5node :=
 | HStrs (l : list str)          (* variable-length text dataset *)
 | HInts (l : list Z)
 | HFlts (l : list Z)            (* float dataset, values as codes *)
-| HEmpty.                       (* the empty float dataset written for the IDs of an empty axis *)
+| HEmpty                        (* the empty float dataset written for the IDs of an empty axis *)
+| HOther (n : nat).             (* a dataset of n booleans, complex numbers, ... (numpy kind not in f, i, u, O, S, U) *)
 
 Record h5file := mkH5 { h_attrs : list (str * h5attr); h_root : list (str * h5node) }.
 
@@ -509,6 +510,7 @@ Definition node_len (n : h5node) : nat :=
   | HInts l => length l
   | HFlts l => length l
   | HEmpty => 0
+  | HOther n => n
   end.
 
 (* _valid_hdf5_ids: the first ID that is empty or was met before *)
@@ -528,6 +530,7 @@ Definition hv_ids (f : h5file) (ax : Z) : result (list msg) :=
   | Some (HInts l) | Some (HFlts l) =>
       match l with [] => ROk [] | _ => RErr E_TYPE end          (* len() of a number *)
   | Some HEmpty => ROk []
+  | Some (HOther n) => match n with O => ROk [] | _ => RErr E_TYPE end
   end.
 
 Fixpoint decreasing (l : list Z) : bool :=
@@ -547,7 +550,7 @@ Definition hv_matrix (f : h5file) (ax : Z) (n_vec n_pos : Z) : result (list msg)
   | Some d, Some ni, Some np =>
       match d with
       | HGroup _ => RErr E_ATTR                       (* a group has no dtype *)
-      | HStrs _ => ROk [[HMSG_MATRIX; ax; 5]]
+      | HStrs _ | HOther _ => ROk [[HMSG_MATRIX; ax; 5]]
       | _ =>
           ki <- int_kind ni ;;
           if negb ki then ROk [[HMSG_MATRIX; ax; 6]] else
@@ -588,12 +591,16 @@ Definition hv_metadata_v210 (f : h5file) : result (list msg) :=
                        | Some (HGroup ch) => existsb (fun p => negb (node_len (snd p) =? n)%nat) ch
                        | _ => false
                        end in
-        match hfind (h_root f) (P2 "observation" "metadata"), hfind (h_root f) (P2 "sample" "metadata") with
-        | Some (HGroup _), Some (HGroup _) =>
+        match hfind (h_root f) (P2 "observation" "metadata") with
+        | Some (HGroup _) =>
             if bad (node_len oi) (hfind (h_root f) (P2 "observation" "metadata")) then ROk [[HMSG_MD; 4]]
-            else if bad (node_len si) (hfind (h_root f) (P2 "sample" "metadata")) then ROk [[HMSG_MD; 4]]
-            else ROk []
-        | _, _ => RErr E_ATTR                 (* a dataset has no items() *)
+            else match hfind (h_root f) (P2 "sample" "metadata") with
+                 | Some (HGroup _) =>
+                     if bad (node_len si) (hfind (h_root f) (P2 "sample" "metadata")) then ROk [[HMSG_MD; 4]]
+                     else ROk []
+                 | _ => RErr E_ATTR            (* a dataset has no items() *)
+                 end
+        | _ => RErr E_ATTR
         end
     | _, _ => RErr E_KEY
     end.
